@@ -331,7 +331,8 @@ func genPDesc(rt *rapid.T, base int64, used map[uint32]bool) *ring.PartitionRing
 			State:          rapid.SampledFrom([]ring.PartitionState{ring.PartitionActive, ring.PartitionActive, ring.PartitionInactive, ring.PartitionPending}).Draw(rt, "state"),
 			StateTimestamp: base - int64(rapid.IntRange(0, 60).Draw(rt, "age"))}
 	}
-	for o := 0; o < rapid.IntRange(0, 3).Draw(rt, "owners"); o++ {
+	nOwners := rapid.IntRange(0, 3).Draw(rt, "owners")
+	for o := 0; o < nOwners; o++ {
 		d.Owners[fmt.Sprintf("o%d", o)] = ring.OwnerDesc{OwnedPartition: int32(rapid.IntRange(0, n-1).Draw(rt, "owned")), State: ring.OwnerActive, UpdatedTimestamp: base - 10}
 	}
 	return d
@@ -450,7 +451,8 @@ func TestPartitionWatcherRapid(t *testing.T) {
 			if err != nil {
 				rt.Fatalf("NewPartitionRing: %v", err)
 			}
-			for j := 0; j < rapid.IntRange(1, 5).Draw(rt, "queries"); j++ {
+			nQueries := rapid.IntRange(1, 5).Draw(rt, "queries")
+			for j := 0; j < nQueries; j++ {
 				q := genPQuery(rt)
 				vx.Eval(1)
 				if s > 0 {
